@@ -1,6 +1,7 @@
 (* C19 — ACE interaction keeps responses aligned with inputs. *)
 From Coq Require Import List NArith ZArith Bool.
 From PyD Require Import Base.Str Model.Ace Proofs.AceP.
+From PyD Require Import Base.Dec Model.SExpr Proofs.SExprP.
 Import ListNotations.
 
 (* whatever the line reader returns was read from the front of the
@@ -62,3 +63,18 @@ Theorem C19_example :
   /\ map r_skipped rs = [false; false; true; false] /\ ps_alive st = true /\ ps_pending st = [].
 Proof. exact (conj ex_items_ok ex_run). Qed.
 Print Assumptions C19_example.
+
+(* decoding of tsdb-stdout answers: reading a printed answer line (pairs of a
+   key and an integer, string, symbol, list or dotted pair, nested to any
+   depth; strings with any characters, quoted and escaped) gives back exactly
+   the pairs the processor printed, so the results of a response are the
+   results produced for that input *)
+Theorem C19_answer_line_decoding : forall pairs, Forall (fun kv => wf (snd kv)) pairs ->
+  sexpr_data (S (length (fmt_line pairs))) (fmt_line pairs) = POk pairs.
+Proof. exact sexpr_data_roundtrip. Qed.
+Print Assumptions C19_answer_line_decoding.
+
+Theorem C19_parse_pair : forall a b rest, wf a -> wf b ->
+  sx_parse (fmt (SPair a b) ++ rest) = POk (SPair a b, rest).
+Proof. exact parse_pair. Qed.
+Print Assumptions C19_parse_pair.
